@@ -3,6 +3,7 @@
 package main
 
 import (
+	"os"
 	"runtime"
 	"sync"
 	"bytes"
@@ -54,6 +55,7 @@ func cmdC01(seed uint64, tier, outdir string) {
 		}
 		return corpora[thr]
 	}
+	ctxWords := 25 // upper bound of the number of unrelated words between planted copies
 	run := func(bc *builtCorpus, docs []corpusDoc, label string) {
 		// minimum run length implied by the threshold, as the property states it (4 words at 0.8)
 		q := 10
@@ -67,7 +69,7 @@ func cmdC01(seed uint64, tier, outdir string) {
 		var copies []plantedCopy
 		tokOff, lineOff := 0, 0
 		addCtx := func() {
-			ctx := oovBlock(r, 1+r.intn(25), r.intn(4))
+			ctx := oovBlock(r, 1+r.intn(ctxWords), r.intn(4))
 			if r.chance(1, 5) {
 				ctx = "-- ** // ;;\n" + ctx
 			}
@@ -195,6 +197,32 @@ func cmdC01(seed uint64, tier, outdir string) {
 		if na != nil && nb != nil {
 			run(bc, []corpusDoc{*na, *nb}, "nested")
 		}
+	}
+	// nested documents on purpose: A small; B = S + own words; C = A + S.  Planting A and B close together makes
+	// C a fuzzy candidate that contains A and overlaps B; both exact copies must survive the overlap resolution
+	for i := 0; i < 6+n/20; i++ {
+		vocab := synthVocab[:12+r.intn(len(synthVocab)-12)]
+		mk := func(m int) string {
+			var ws []string
+			for j := 0; j < m; j++ {
+				ws = append(ws, vocab[r.intn(len(vocab))])
+				if r.chance(1, 9) {
+					ws[len(ws)-1] += "\n"
+				}
+			}
+			return strings.Join(ws, " ")
+		}
+		a, sh, own := mk(6+r.intn(10)), mk(25+r.intn(30)), mk(40+r.intn(40))
+		docs := []corpusDoc{{"License", "Nest-A", "a.txt", []byte(a)}, {"License", "Nest-B", "b.txt", []byte(sh + " " + own)},
+			{"License", "Nest-C", "c.txt", []byte(a + " " + sh)}}
+		thr := []float64{0.7, 0.8, 0.9, 0.75, 0.85}[r.intn(5)]
+		bc := buildCorpus(thr, docs)
+		ctxWords = 1 + r.intn(4)
+		run(bc, []corpusDoc{docs[0], docs[1]}, "nested-close")
+		if r.chance(1, 2) {
+			run(bc, []corpusDoc{docs[0], docs[1], docs[0]}, "nested-close")
+		}
+		ctxWords = 25
 	}
 	vw.close()
 	cw.close()
@@ -342,6 +370,37 @@ func cmdC0203(seed uint64, tier, outdir string) {
 			doCase(bc, in)
 		}
 	}
+	// thresholds that are not whole percentages (or whose x100 is inexact), with inputs whose confidence lands
+	// within a percentage point of the threshold on either side: k foreign words inserted in one place and k
+	// document words deleted in another cost 2k edits
+	for _, thr := range []float64{0.875, 0.57, 0.58, 0.29, 0.815, 0.7, 0.835, 0.645, 0.925, 0.875, 0.815, 0.755, 0.665, 0.905} {
+		var d corpusDoc
+		for tries := 0; tries < 50; tries++ {
+			d = all[r.intn(len(all))]
+			if nw := len(strings.Fields(string(d.text))); nw >= 500 && nw <= 1600 {
+				break
+			}
+		}
+		bc := buildCorpus(thr, append(sampleDocs(r, all, 3), d))
+		ws := strings.Split(string(d.text), " ") // words keep their line breaks
+		nw := len(ws)
+		k0 := int((1 - thr) * float64(nw) / 2)
+		a := nw/3 + r.intn(nw/6+1)
+		b := 2*nw/3 + r.intn(nw/8+1)
+		for k := k0 - 8; k <= k0+8; k++ {
+			if k < 1 || b+k > nw-2 || a >= b {
+				continue
+			}
+			var out []string
+			out = append(out, ws[:a]...)
+			for j := 0; j < k; j++ {
+				out = append(out, oovWords[(j+k)%len(oovWords)])
+			}
+			out = append(out, ws[a:b]...)
+			out = append(out, ws[b+k:]...)
+			doCase(bc, input{fmt.Sprintf("near-threshold(%v,k=%d):%s", thr, k, d.name), []byte(strings.Join(out, " "))})
+		}
+	}
 	type outc struct{ c2, c3 string }
 	outs := make([]outc, len(jobs))
 	var wg sync.WaitGroup
@@ -361,6 +420,10 @@ func cmdC0203(seed uint64, tier, outdir string) {
 			for i := range next {
 				bc, in := jobs[i].bc, jobs[i].in
 				res, _, panicked := matchSafeR(bc.c, in.data)
+				if os.Getenv("VERIF_DEBUG") != "" && strings.HasPrefix(in.name, "near-threshold") {
+					ntk, _, _, _ := tokCountLines(bc.c, in.data)
+					fmt.Fprintf(os.Stderr, "%s tokens=%d -> %s\n", in.name, ntk, fmtResults(res))
+				}
 				if panicked {
 					outs[i] = outc{"VIOL - panic on " + in.name, "VIOL - panic on " + in.name}
 					continue
